@@ -22,44 +22,65 @@ let mvp_case _ line =
     | "3" -> mvp3_run (nat_of_int fuel) prog (lookup labels) st
     | "4" -> mvp4_run (nat_of_int fuel) prog (lookup labels) st
     | "5" -> mvp5_run (nat_of_int fuel) prog (lookup labels) st
-    | v when String.length v >= 5 && (String.sub v 0 4 = "6.0x" || String.sub v 0 4 = "6.1x") ->
-      (* "6.0x<par>", "6.0x<par>o<k>" or "6.0x<par>r<seed>": MVP-6.0 with <par> execute/write units; the same
-         with "6.1x" for MVP-6.1.
-         The iteration order of a store's MemoryChanges map is the k-th permutation of its ascending
-         keys (perm_of): o<k> = the same k for every store (default 0 = ascending; k mod #keys is the
-         index of the first key); r<seed> = a pseudo-random k per (cycle, pc) of the store.
-         MVP-6.1 also ranges over the map pushedRunnersInPreviousCycle (shouldUseForwarding): among the n
-         runners that match, o<k> takes number k mod n (in the order they were pushed), r<seed> a
-         pseudo-random one per cycle.
-         The ghost flag of the model is recorded in os_flag and printed as a last field os=0|1. *)
-      let is61 = String.sub v 0 4 = "6.1x" in
+    | v when String.length v >= 5 && List.mem (String.sub v 0 4) ["6.0x"; "6.1x"; "6.2x"; "6.3x"] ->
+      (* "6.Nx<par>", "6.Nx<par>o<k>", "6.Nx<par>r<seed>" or "6.Nx<par>g<seed>": MVP-6.N (N = 0..3) with <par>
+         execute/write units.  Go map iteration orders are arguments of the models:
+           ord   - a store's MemoryChanges map (all four models); in Mvp63 the same function also orders
+                   controlUnit.pushedRunnersInPreviousCycle (pc = the reading runner) and the RAT value maps (pc < 0);
+           pord  - Mvp61: which of the n matching runners of pushedRunnersInPreviousCycle is taken.
+         o<k> = the k-th permutation of the ascending keys (perm_of) everywhere (default 0);
+         r<seed> = a pseudo-random permutation per (cycle, pc);
+         g<seed> = what the Go runtime does with a map of at most 8 entries that has seen no deletion: a rotation of
+                   the insertion order by a random offset 0..7 (the order itself when the offset is not below the size).
+         A trailing 's' prints the state reached when the fuel is exhausted (as harness command runb), 'S' (6.3)
+         also the speculative register file as rat=..  The ghost flag is printed as a last field os=0|1. *)
+      let vv = String.sub v 0 4 in
       let rest = String.sub v 4 (String.length v - 4) in
-      (* a trailing 's': print the state reached when the fuel is exhausted *)
-      let snap = rest.[String.length rest - 1] = 's' in
+      let last = rest.[String.length rest - 1] in
+      let snap = last = 's' || last = 'S' in
+      let showrat = last = 'S' in
       let rest = if snap then String.sub rest 0 (String.length rest - 1) else rest in
       let split c = match String.index_opt rest c with
         | None -> None
         | Some i -> Some (int_of_string (String.sub rest 0 i), int_of_string (String.sub rest (i + 1) (String.length rest - i - 1))) in
-      let par, ord, pord = match split 'o', split 'r' with
-        | Some (par, k), _ -> par, ord_policy (z_of_int k), pord_policy (z_of_int k)
-        | None, Some (par, seed) ->
+      let par, ord, pord = match split 'o', split 'r', split 'g' with
+        | Some (par, k), _, _ -> par, ord_policy (z_of_int k), pord_policy (z_of_int k)
+        | None, Some (par, seed), _ ->
           par, (fun cycle pc l ->
               let h = Hashtbl.hash (seed, int_of_z cycle, int_of_z pc) in
               perm_of (z_of_int (h mod 24)) l),
           (fun cycle n -> z_of_int (Hashtbl.hash (seed, int_of_z cycle, 77) mod 24))
-        | None, None -> int_of_string rest, ord_policy Z0, pord_policy Z0 in
-      let run = if is61 then mvp61_run_snap (nat_of_int par) ord pord (nat_of_int fuel) prog (lookup labels) st
-        else mvp60_run_snap (nat_of_int par) ord (nat_of_int fuel) prog (lookup labels) st in
-      (match run with
+        | None, None, Some (par, seed) ->
+          par, (fun cycle pc l ->
+              let n = List.length l in
+              let r = (Hashtbl.hash (seed, int_of_z cycle, int_of_z pc)) mod 8 in
+              if r < n && r > 0 then
+                let rec split_at k l = if k = 0 then ([], l) else
+                    match l with [] -> ([], []) | x :: t -> let (a, b) = split_at (k - 1) t in (x :: a, b) in
+                let (a, b) = split_at r l in b @ a
+              else l),
+          (fun cycle n -> z_of_int (Hashtbl.hash (seed, int_of_z cycle, 78) mod 8))
+        | None, None, None -> int_of_string rest, ord_policy Z0, pord_policy Z0 in
+      let norat r = match r with
+        | Inl x -> Inl x
+        | Inr ((((c, st'), pw), pr), os) -> Inr (((((c, st'), pw), pr), os), []) in
+      let result = match vv with
+        | "6.0x" -> norat (mvp60_run_snap (nat_of_int par) ord (nat_of_int fuel) prog (lookup labels) st)
+        | "6.1x" -> norat (mvp61_run_snap (nat_of_int par) ord pord (nat_of_int fuel) prog (lookup labels) st)
+        | "6.2x" -> norat (mvp62_run_snap (nat_of_int par) ord (nat_of_int fuel) prog (lookup labels) st)
+        | _ -> mvp63_run_snap (nat_of_int par) ord (nat_of_int fuel) prog (lookup labels) st in
+      (match result with
        | Inl (r, os) -> os_flag := (if os then " os=1" else " os=0"); r
-       | Inr ((((c, st'), pw), pr), os) ->
+       | Inr (((((c, st'), pw), pr), os), rat) ->
+         ignore c;
          os_flag := (if os then " os=1" else " os=0");
          if snap then begin
-           (* what the harness command `runb` prints when the budget is exhausted *)
+           (* what the harness commands `runb` / `runc` print when the budget is exhausted *)
            let nz l = List.filter (fun (i, v) -> v <> 0 && i <> 0) (List.mapi (fun i v -> (i, int_of_z v)) l) in
            let ms = List.filter (fun (i, v) -> v <> int_of_z mem.(i)) (List.mapi (fun i v -> (i, int_of_z v)) st'.mem) in
            let p l = String.concat "," (List.map (fun (a, b) -> Printf.sprintf "%d:%d" a b) l) in
-           os_flag := Printf.sprintf " r=%s m=%s pw=%s pr=%s%s" (p (nz st'.regs)) (p ms) (p (nz pw)) (p (nz pr)) !os_flag
+           os_flag := Printf.sprintf " r=%s m=%s pw=%s pr=%s%s%s" (p (nz st'.regs)) (p ms) (p (nz pw)) (p (nz pr))
+               (if showrat then Printf.sprintf " rat=%s" (p (nz rat)) else "") !os_flag
          end;
          MOutOfFuel)
     | _ -> failwith ("unknown variant " ^ variant) in
